@@ -129,6 +129,7 @@ func runC01(w *vx.W) {
 	c01LyingSizes(c)
 	c01LocalSweep(c)
 	c01BeforeFileId(c)
+	c01StringBytes(c)
 	c01Definitions(c)
 }
 
@@ -1023,6 +1024,57 @@ func c01BeforeFileId(c *c01ctx) {
 				c.call("Decode+options", b, 0)
 				w.Fam("j:records-before-file_id-data", 1)
 				w.DistinctS(fmt.Sprintf("pre/%02x/%s", h1&0xE0, errClass(res.Err)))
+			}
+		}
+	}
+}
+
+// (k) string fields filled with every word over the UTF-8 byte classes {NUL, ASCII, continuation bytes 0x80 / 0xBF,
+// 2-, 3- and 4-byte lead bytes, 0xFF} for field sizes 1..4 (scalar strings and string arrays of every known message
+// that has one), with and without a terminator: string handling that scans for rune boundaries must stay in bounds.
+func c01StringBytes(c *c01ctx) {
+	w := c.w
+	p := prof()
+	alpha := []byte{0x00, 'a', 0x80, 0xBF, 0xC3, 0xE2, 0xF0, 0xFF}
+	var idx int64
+	for _, e := range p.all {
+		if e.Base != fitmodel.String {
+			continue
+		}
+		m := uint16(e.Mesg)
+		ft, ok := hostType(m)
+		if !ok {
+			ft = 4
+		}
+		for size := 1; size <= 4; size++ {
+			n := 1
+			for i := 0; i < size; i++ {
+				n *= len(alpha)
+			}
+			for code := 0; code < n; code++ {
+				idx++
+				if !w.Mine(idx) {
+					continue
+				}
+				pl := make([]byte, size)
+				x := code
+				for i := range pl {
+					pl[i] = alpha[x%len(alpha)]
+					x /= len(alpha)
+				}
+				var b []byte
+				if m == 0 {
+					d := fitmodel.Def{Local: 0, Global: 0, Fields: []fitmodel.FieldDef{{Num: 0, Size: 1, Base: fitmodel.Enum}, {Num: e.Num, Size: byte(size), Base: fitmodel.String}}}
+					b = fitmodel.File(fitmodel.DefaultHeader, d.Bytes(), fitmodel.Data(0, append([]byte{ft}, pl...)))
+				} else {
+					b = probeStream(ft, m, code%2 == 1, []fitmodel.FieldDef{{Num: e.Num, Size: byte(size), Base: fitmodel.String}}, pl)
+				}
+				c.call("Decode", b, 0)
+				if size <= 2 {
+					c.call("DecodeHeaderAndFileID", b, 0)
+					c.call("Decode+options", b, 0)
+				}
+				w.Fam("k:string-byte-classes", 1)
 			}
 		}
 	}
